@@ -120,6 +120,16 @@ theorem wf_topic {s : Srv} (h : SrvWF s) (src c t : Str) : SrvWF (s.step (.topic
       exact wf_setChan h _ _ ⟨hw.key, hw.name, hw.members, hw.modesNodup, hw.modes⟩
   · exact h
 
+theorem wf_say {s : Srv} (h : SrvWF s) (n t x : Str) : SrvWF (s.step (.say n t x)).1 := by
+  simp only [Srv.step]
+  split
+  · exact h
+  · split
+    · exact h
+    · split
+      · exact wf_congr h rfl rfl rfl rfl
+      · exact h
+
 theorem wf_names {s : Srv} (h : SrvWF s) (c : Str) : SrvWF (s.step (.names c)).1 := by
   simp only [Srv.step]
   split
@@ -700,6 +710,7 @@ theorem wf_step {s : Srv} (h : SrvWF s) (a : Act) (ha : a.ok) : SrvWF (s.step a)
   | mode src c cs => exact wf_mode h src c cs ha
   | topic src c t => exact wf_topic h src c t
   | chghost n i ho => exact wf_chghost h n i ho
+  | say n t x => exact wf_say h n t x
   | names c => exact wf_names h c
   | who c => exact wf_who h c
   | modeis c => exact wf_modeis h c
